@@ -6,6 +6,15 @@ TECH = "runtime monitoring: post-conditions / lock-step reference models / offli
 
 # id -> (category, technique, level text, level note, design ref)
 CLAIMED = {
+ "C15": ("exploration", "lock-step reference automaton over random call histories of static / adaptive samplers, with recorded inner proposals; binomial retention test (alpha 1e-9, replicate on failure)",
+         "Held on K call histories: a static sampler returns the identical set for exactly resample_interval uses and then a recorded fresh proposal, non-static samplers are fresh every call, adaptive samplers keep exactly the rows at/above the threshold (random variant: with the stated probability) and replace the others by the recorded proposals inside the domain.",
+         "StaticSampler.__next__ is modelled as a peek (deliberate override; C15 speaks of sample_points uses); membership of replaced rows judged with own float64 formulas for simple domains.", "DESIGN.md 4 C15"),
+ "C16": ("exploration", "offline checker over recorded batches of uniquely tagged data: pairing by id, coverage (at-least-once), batch-size bound, reference aggregation of DataCondition",
+         "Held on K loader configurations (all combinations enumerated for sizes <= 5 quick / <= 8 thorough): every yielded batch pairs inputs and targets by id, one pass presents every datum / function-location pair (minus dropped tails), batches never exceed the request, full-data DataCondition equals the independent aggregation. D34 (DeepONetDataset diagonal walk, gcd>1) is a recorded known finding.",
+         "num_workers=0 only; unique ids encoded in the data values.", "DESIGN.md 4 C16"),
+ "C17": ("exploration", "commuting-diagram monitor around Domain.__call__: evaluated domain vs float64 twin of the original expression at vals+rest, vs the original domain at the full parameters; snapshots of the original",
+         "Held on K partial evaluations (every non-empty subset of the free variables): membership, samples (interior and boundary), volume, bounding box, necessary_variables, nested evaluation agree; the original is unchanged. Two known findings recorded (user volume not carried; (1,k) volume layout of dependent products with a free variable).",
+         "Trusts the twin; volume/bounding box compared library-vs-library at full parameters (dependent products excluded there: documented random estimates).", "DESIGN.md 4 C17"),
  "C01": ("exploration", "post-condition monitor on every sampling return, judged row by row by an independent float64 twin geometry; logical progress budget",
          "Held on K generated domain expressions x sampling calls: every returned row lies in the twin set at its own parameter row (interior: level <= 2e-5 L; boundary: on the level set and two-sided), coordinates finite, every call returned within its proposal budget. Exploration is the right level: the property quantifies over all expressions / counts / parameter batches; reach comes from the seeded generator, the evidence lists classes and mechanisms reached.",
          "Trusts the twin geometry (self-validated at setup: closed-form measures vs hit counting) and numpy; shapes restricted to the float32 conditioning regime of DESIGN.md 3.1; ambiguous near-tangential seam rows are counted, not judged.", "DESIGN.md 4 C01"),
